@@ -1040,13 +1040,13 @@ static void must_be_cur(const void *skb)
 /* kernel: bpf_try_make_writable(skb, len ?: headlen) -> pskb_may_pull():
  * ok if len <= headlen; fails if len > skb->len (yes: pulling 128 bytes of a
  * 74-byte frame FAILS); otherwise pulls (which the harness can make fail). */
-static long skb_make_linear(uint32_t len)
+static long skb_make_linear(uint32_t len, int honour_injected_failure)
 {
 	if (len <= cur.linear)
 		return 0;
 	if (len > cur.len)
 		return -ENOMEM;
-	if (cur.pull_fails)
+	if (cur.pull_fails && honour_injected_failure)
 		return -ENOMEM;
 	skb_sync_from_arena();
 	cur.linear = len;
@@ -1060,7 +1060,7 @@ long bpf_skb_pull_data(struct __sk_buff *skb, __u32 len)
 
 	must_be_cur(skb);
 	ks_skb_res.pull_calls++;
-	r = skb_make_linear(len ? len : cur.linear);
+	r = skb_make_linear(len ? len : cur.linear, 1);
 	if (r)
 		ks_skb_res.pull_failed++;
 	return r;
@@ -1089,9 +1089,10 @@ long bpf_skb_store_bytes(struct __sk_buff *skb, __u32 offset, const void *from, 
 		return -EFAULT;
 	if ((uint64_t)offset + len > cur.len)
 		return -EFAULT;
-	/* kernel makes [0, offset+len) writable == linear; a pull failure injected
-	 * by the harness is honoured here as well */
-	if (skb_make_linear(offset + len))
+	/* kernel makes [0, offset+len) writable == linear. The harness' pull-failure
+	 * injection applies to bpf_skb_pull_data only (it selects the parsing path);
+	 * stores still succeed, so fast/slow runs stay comparable. */
+	if (skb_make_linear(offset + len, 0))
 		return -EFAULT;
 	skb_sync_from_arena();
 	memcpy(cur.full + offset, from, len);
